@@ -10,7 +10,9 @@ Input line (all times integer µs):
   RS = {"aw":[d,…],"end":O,"oc":{"d":d,"end":O}}   awaits, final outcome, reaction to a delivered cancellation
   OP = {"op":"start"} | {"op":"cancel"} | {"op":"stop"} | {"op":"wait"} | {"op":"run","as":[actor,…]}
      | {"op":"add","label":L,"dur":d,"end":O,"oc":{"d":d,"end":O},"spawn":null|{"dur":d,"end":O,"oc":{…}}}
-  O  = "ret" | "exc" | "base" | "cancelled"
+  O  = "ret" | "exc" | "base" | "cancelled" | "sysexit" | "kbdint" (custom BaseException subclasses: kind "base")
+     | "excgroup" | "bgroup_of_exc" (kind "excgroup") | "basegroup" | "mixedgroup" (kind "basegroup")
+     observations name the KIND of an outcome: "ret" | "exc" | "base" | "cancelled" | "excgroup" | "basegroup"
 Output line: {"hist":…, "calls":…, "runs":…, "samples":…}  — see harness/c10.py (`observe`).
 
 The driver contains the *scheduler* of the correspondence check: it turns the scripted behaviour of the tasks and
@@ -72,10 +74,17 @@ structure Sim where
 def parseOutcome (s : String) : Except String Outcome :=
   match s with
   | "ret" => pure .ret | "exc" => pure .exc | "base" => pure .baseExc | "cancelled" => pure .cancelled
+  -- custom `BaseException` subclasses shaped like SystemExit / KeyboardInterrupt: plain BaseExceptions
+  | "sysexit" => pure .baseExc | "kbdint" => pure .baseExc
+  -- groups: an `ExceptionGroup`; a `BaseExceptionGroup(...)` built from Exceptions only (Python makes it an
+  -- `ExceptionGroup`); a `BaseExceptionGroup` of non-Exceptions only; one with both kinds of members
+  | "excgroup" => pure .excGroup | "bgroup_of_exc" => pure .excGroup
+  | "basegroup" => pure .baseGroup | "mixedgroup" => pure .baseGroup
   | _ => throw s!"bad outcome {s}"
 
 def outcomeStr : Outcome → String
   | .ret => "ret" | .exc => "exc" | .baseExc => "base" | .cancelled => "cancelled"
+  | .excGroup => "excgroup" | .baseGroup => "basegroup"
 
 def parseOc (j : Json) : Except String (Int × Outcome) := do
   let oc ← j.getObjVal? "oc"
